@@ -15,7 +15,7 @@ def RowOk (pf : Ver → TextId → Option TreeId) (r : Row) : Prop :=
 
 def FileInv (pf : Ver → TextId → Option TreeId) (f : DbFile) : Prop := ∀ r ∈ rowsOf f, RowOk pf r
 
-def Inv (pf : Ver → TextId → Option TreeId) (s : St) : Prop := FileInv pf s.file
+def RowInv (pf : Ver → TextId → Option TreeId) (s : St) : Prop := FileInv pf s.file
 
 /-- the process has not initialised the database, or the `models` table can be queried -/
 def Synced (s : St) : Prop := s.init = true → s.file.queryable.isSome = true
@@ -160,7 +160,7 @@ theorem initBlock_spec (s : St) (days : Int) :
       | some mt =>
         cases mt <;> (simp [txIntegrity, txCheckModels, txCheckMeta, txMetaDefaults, txPrune, St.read, rowsOf] <;> try (intros; assumption))
 
-theorem initBlock_inv {s s' : St} {days : Int} (h : Inv pf s) (he : initBlock s days = .ok s') : Inv pf s' := by
+theorem initBlock_inv {s s' : St} {days : Int} (h : RowInv pf s) (he : initBlock s days = .ok s') : RowInv pf s' := by
   obtain ⟨s'', he', _, _, _, rows, c, p, hfile, hsub⟩ := initBlock_spec s days
   rw [he] at he'; cases he'
   intro r hr
@@ -169,8 +169,8 @@ theorem initBlock_inv {s s' : St} {days : Int} (h : Inv pf s) (he : initBlock s 
 
 /-- on an exception inside the block (unreachable from a single process, kept for totality) the rows are
     still a subset of the old ones -/
-theorem initBlock_err_inv {s s' : St} {days : Int} {e : Err} (h : Inv pf s) (he : initBlock s days = .error (s', e)) :
-    Inv pf s' := by
+theorem initBlock_err_inv {s s' : St} {days : Int} {e : Err} (h : RowInv pf s) (he : initBlock s days = .error (s', e)) :
+    RowInv pf s' := by
   obtain ⟨s'', he', _⟩ := initBlock_spec s days
   rw [he] at he'; cases he'
 
@@ -180,7 +180,7 @@ theorem read_file (s : St) : s.read.2.file = s.file := rfl
 theorem read_ver (s : St) : s.read.2.ver = s.ver := rfl
 theorem read_init (s : St) : s.read.2.init = s.init := rfl
 
-theorem finish_inv {s : St} {x : TextId} {tree : Option TreeId} (h : Inv pf s) : Inv pf (finish pf s x tree).1 := by
+theorem finish_inv {s : St} {x : TextId} {tree : Option TreeId} (h : RowInv pf s) : RowInv pf (finish pf s x tree).1 := by
   unfold finish
   split
   · exact h
@@ -299,9 +299,9 @@ theorem touched_spec (s : St) (x : TextId) (upd : Bool) (lh : Int) {m : Models} 
   · simp only [hc]
     exact ⟨_, rfl, rfl, rfl, by simp [St.read, hq], fun _ h => h⟩
 
-theorem afterInit_spec {cfg : Cfg} {s : St} {x : TextId} {upd : Bool} (hc : CaughtAll cfg) (h : Inv pf s)
+theorem afterInit_spec {cfg : Cfg} {s : St} {x : TextId} {upd : Bool} (hc : CaughtAll cfg) (h : RowInv pf s)
     (hq : s.file.queryable.isSome = true) :
-    (afterInit cfg pf s x upd).2 = .value (pf s.ver x) ∧ Inv pf (afterInit cfg pf s x upd).1 ∧
+    (afterInit cfg pf s x upd).2 = .value (pf s.ver x) ∧ RowInv pf (afterInit cfg pf s x upd).1 ∧
     (afterInit cfg pf s x upd).1.file.queryable.isSome = true ∧ (afterInit cfg pf s x upd).1.init = s.init := by
   obtain ⟨m, hm⟩ := Option.isSome_iff_exists.mp hq
   unfold afterInit
@@ -317,7 +317,7 @@ theorem afterInit_spec {cfg : Cfg} {s : St} {x : TextId} {upd : Bool} (hc : Caug
       simp only []
       rw [hs1]
       simp only []
-      have h1 : Inv pf s1 := hinv1 pf h
+      have h1 : RowInv pf s1 := hinv1 pf h
       cases blob with
       | good t =>
         cases t with
@@ -336,8 +336,8 @@ theorem afterInit_spec {cfg : Cfg} {s : St} {x : TextId} {upd : Bool} (hc : Caug
         rw [finish_none_transparent hq1, hv1]
 
 /-- `afterInit` keeps the invariant even when it raises -/
-theorem afterInit_inv {cfg : Cfg} {s : St} {x : TextId} {upd : Bool} (h : Inv pf s) :
-    Inv pf (afterInit cfg pf s x upd).1 := by
+theorem afterInit_inv {cfg : Cfg} {s : St} {x : TextId} {upd : Bool} (h : RowInv pf s) :
+    RowInv pf (afterInit cfg pf s x upd).1 := by
   unfold afterInit
   cases hl : txLookup x s.ver s.file with
   | error e => exact h
@@ -355,7 +355,7 @@ theorem afterInit_inv {cfg : Cfg} {s : St} {x : TextId} {upd : Bool} (h : Inv pf
       simp only []
       rw [hs1]
       simp only []
-      have h1 : Inv pf s1 := hinv1 pf h
+      have h1 : RowInv pf s1 := hinv1 pf h
       cases blob with
       | good t => exact finish_inv h1
       | bad e =>
@@ -363,8 +363,8 @@ theorem afterInit_inv {cfg : Cfg} {s : St} {x : TextId} {upd : Bool} (h : Inv pf
         · simp only [hcg, if_true]; exact finish_inv h1
         · simp only [hcg]; exact h1
 
-theorem parseCached_inv {cfg : Cfg} {s : St} {x : TextId} {days : Int} {upd : Bool} (h : Inv pf s) :
-    Inv pf (parseCached cfg pf s x days upd).1 := by
+theorem parseCached_inv {cfg : Cfg} {s : St} {x : TextId} {days : Int} {upd : Bool} (h : RowInv pf s) :
+    RowInv pf (parseCached cfg pf s x days upd).1 := by
   rw [parseCached_eq]
   by_cases hi : s.init = true
   · simp only [hi, if_true]
@@ -375,7 +375,7 @@ theorem parseCached_inv {cfg : Cfg} {s : St} {x : TextId} {days : Int} {upd : Bo
     exact afterInit_inv (initBlock_inv h he)
 
 theorem parseCached_spec {cfg : Cfg} {s : St} {x : TextId} {days : Int} {upd : Bool} (hc : CaughtAll cfg)
-    (h : Inv pf s) (hs : Synced s) :
+    (h : RowInv pf s) (hs : Synced s) :
     (parseCached cfg pf s x days upd).2 = .value (pf s.ver x) ∧
     (parseCached cfg pf s x days upd).1.init = true ∧
     (parseCached cfg pf s x days upd).1.file.queryable.isSome = true := by
